@@ -45,6 +45,10 @@ def cases(tier):
             step = 1 if (tier == "thorough" or tcn == "wide") else 3
             for i in range(0, n, step):
                 out.append({"shape": shape, "tc": tcn, "i": i})
+    # fitted ranges whose segment limits coincide with the observed extremes (ties at the hottest / coldest temperature)
+    for shape in dd.SHAPES:
+        for i in range(len(dd.lattice(shape, tier, dd.TC_TIED))):
+            out.append({"shape": shape, "tc": "tied", "i": i})
     # the same documents with the keys of every JSON object sorted / reversed (key order carries no meaning): every 4th point
     for order in ("sorted", "reversed"):
         for shape in dd.SHAPES:
@@ -210,7 +214,7 @@ def run_case(case):
         T = temps_for(c, tc, e)
         m = em.DailyModel.from_2_0_dict(doc2)
     else:
-        tc = dd.TC_WIDE if case["tc"] == "wide" else dd.TC_NARROW
+        tc = {"wide": dd.TC_WIDE, "narrow": dd.TC_NARROW, "tied": dd.TC_TIED}[case["tc"]]
         c = dd.lattice(case["shape"], case.get("tier", "quick"), tc)[case["i"]]
         e = curve.effective(c, tc)
         T = temps_for(c, tc, e)
@@ -239,8 +243,15 @@ def run_case(case):
     if case["shape"] == "hdd_tidd_cdd_smooth":
         s = (c["hdd_k"] or 0) + (c["cdd_k"] or 0)
         fr = "sum>=1" if s >= 1 else "sum<1"
+    edge = {}
+    if case["tc"] == "tied":
+        # which balance point sits exactly on the edge of the fitted range
+        on = [k for k in ("hdd_bp", "cdd_bp") if c.get(k) is not None and c[k] in (tc["T_min"], tc["T_max"])]
+        top = [k for k in on if c[k] == tc["T_max"]]
+        edge = {"range": "tied", "bp_on_edge": ("T_max" if top else "T_min") if on else "none",
+                "all_bps_on_T_max": bool(on) and all(c[k] == tc["T_max"] for k in ("hdd_bp", "cdd_bp") if c.get(k) is not None)}
     for clause, detail in got:
-        viol.append({"clause": clause, "key": {"shape": c["model_type"] if case["shape"] == "legacy2" else case["shape"], "smoothing": fr,
+        viol.append({"clause": clause, "key": {"shape": c["model_type"] if case["shape"] == "legacy2" else case["shape"], "smoothing": fr, **edge,
                                                **({"document": "2.0"} if case["shape"] == "legacy2" else {}),
                                                **({"key_order": case["key_order"]} if case.get("key_order") else {}),
                                                **({"t_dtype": case["t_dtype"]} if case.get("t_dtype") else {})},
